@@ -224,7 +224,40 @@ func execBufHist(steps []bufStep, j *jb) string {
 	return key
 }
 
+// deepPairs: every ordered pair of (deep document, function) steps on one Buffer - what one function leaves in the
+// Buffer at, just below and beyond the depth limit must not change what any other function does next.
+func deepPairs(c *genCtx, sw *shardWriter, j *jb) {
+	mk := func(open, close, bottom string, n int) bufStep {
+		segs := []seg{{[]byte(open), n}, {[]byte(bottom), 1}, {[]byte(close), n}}
+		return bufStep{data: expandSegs(segs), segs: segs}
+	}
+	deep := []bufStep{mk("[", "]", "", 10000), mk("[", "]", "", 10001), mk("[", "]", "1", 10050), mk("[", "", "", 10005),
+		mk(`{"a":`, "}", "1", 10001), mk(`[{"a":`, "}]", "1", 5030), mk("[", "]", "", 9999)}
+	type fm struct{ fn, mode int }
+	fms := []fm{{1, 0}, {2, 0}, {3, 0}, {4, hmZero}, {5, hmZero}, {4, hmSkipSame}, {5, hmFastSame}}
+	n := 0
+	for _, d1 := range deep {
+		for _, f1 := range fms {
+			for _, d2 := range deep {
+				for _, f2 := range fms {
+					n++
+					if !c.thorough() && (n+int(c.seed))%2 != 0 {
+						continue // the quick tier takes every other pair (which ones depends on the seed)
+					}
+					s1, s2 := d1, d2
+					s1.fn, s1.mode, s2.fn, s2.mode = f1.fn, f1.mode, f2.fn, f2.mode
+					key := execBufHist([]bufStep{s1, s2}, j)
+					sw.write(j.b)
+					c.st.noteKey("pair"+key+fmt.Sprint(n), true)
+				}
+			}
+		}
+	}
+}
+
 func genBufHist(c *genCtx, sw *shardWriter, j *jb) {
+	setCurrent("bufhist deep pairs")
+	deepPairs(c, sw, j)
 	docs := histDocs(c)
 	nh := 1500
 	if c.thorough() {
